@@ -42,6 +42,8 @@ def _table(term, atoms):
 
 
 def run(db, chk) -> None:
+    from ..specs.discipline import check_shared_trace_untouched
+    check_shared_trace_untouched(db, chk, "C06.R-shared-trace")
     from ..specs.discipline import check_facade_stateless
     check_facade_stateless(db, chk, "C06.R-facade-stateless", ['get_idle_time_breakdown'])
     from ..specs.discipline import check_stateless
